@@ -93,6 +93,7 @@ type Node struct {
 	// RespCompress: 0 follow the request's connection setting for every frame, 1 never, 2 per-frame choice
 	RespCompress  int
 	AuthUser      string // if set, PasswordAuthenticator with this user/password
+	AuthDSE       bool   // ... as a DSE node does it: mechanism name first, then a challenge round
 	AuthPass      string
 	ConnsSeen     int
 	DialTimes     []time.Duration
@@ -116,6 +117,7 @@ type BackendConn struct {
 	Outstanding map[int16]bool
 	Frames      int
 	authPending bool
+	authStarted bool // DSE: the mechanism was named and the challenge sent
 	stalled     [][]byte
 	Hung        bool         // answers nothing any more (OutHang)
 	Out         func([]byte) // if set, replies are written here instead of to Link
@@ -336,13 +338,27 @@ func (c *BackendConn) handle(raw []byte) {
 		}
 		if n.AuthUser != "" {
 			c.authPending = true
-			c.replyNow(stream, &message.Authenticate{Authenticator: "org.apache.cassandra.auth.PasswordAuthenticator"})
+			a := "org.apache.cassandra.auth.PasswordAuthenticator"
+			if n.AuthDSE {
+				a = "com.datastax.bdp.cassandra.auth.DseAuthenticator"
+			}
+			c.replyNow(stream, &message.Authenticate{Authenticator: a})
 			return
 		}
 		c.replyNow(stream, &message.Ready{})
 		w.Logf("backend %s: STARTUP %s %v", c, versionName(hdr.Version), msg.Options)
 	case *message.AuthResponse:
 		want := "\x00" + n.AuthUser + "\x00" + n.AuthPass
+		if n.AuthDSE && !c.authStarted {
+			if string(msg.Token) == "PLAIN" {
+				c.authStarted = true
+				w.Stat("backend.auth_challenge")
+				c.replyNow(stream, &message.AuthChallenge{Token: []byte("PLAIN-START")})
+			} else {
+				c.replyNow(stream, &message.AuthenticationError{ErrorMessage: "Unsupported mechanism"})
+			}
+			return
+		}
 		if string(msg.Token) == want {
 			c.authPending = false
 			w.Stat("backend.authenticated")
@@ -563,12 +579,14 @@ func (c *BackendConn) freeStream() int16 {
 var HostileKinds = []string{"wrong-stream", "request-opcode-as-response", "short-error-body", "garbage-bytes", "reply-twice",
 	"huge-length-then-silence", "unprepared-for-cached-id", "unknown-result-kind", "garbage-event", "direction-bit-missing",
 	"truncated-rows", "error-with-bad-code", "zero-length-result",
-	"negative-stream-ready", "negative-stream-result", "min-stream-error", "max-stream-result", "unsolicited-ready-then-answer"}
+	"negative-stream-ready", "negative-stream-result", "min-stream-error", "max-stream-result", "unsolicited-ready-then-answer",
+	"flagged-short-body"}
 
 // hostile answers a request the way no healthy Cassandra node would (C17).
 func (c *BackendConn) hostile(kind int, stream int16, att *Attempt, tok string) {
 	w := c.Node.w
 	name := HostileKinds[kind%len(HostileKinds)]
+	variant := kind / len(HostileKinds) // drawn by the scenario; 0 when it draws none
 	w.Stat("fault.hostile-backend." + name)
 	w.Logf("backend %s: HOSTILE reply %s for %s", c, name, tok)
 	att.Outcome = "hostile:" + name
@@ -622,6 +640,14 @@ func (c *BackendConn) hostile(kind int, stream int16, att *Attempt, tok string) 
 		c.Link.PeerWrite(append(hdr(-32768, 0x00, 10), 0, 0, 0, 0, 0, 4, 'o', 'o', 'p', 's'))
 	case "max-stream-result":
 		c.Link.PeerWrite(encodeFrame(c.Compression, frame.NewFrame(c.Version, 32767, tokenRows(tok, c.Version))))
+	case "flagged-short-body":
+		// header flags announce a tracing id (16 bytes), warnings or a custom payload that the
+		// body is too short to hold
+		b := hdr(stream, []byte{0x00, 0x08}[(variant/64)%2], 0)
+		b[1] = []byte{0x02, 0x04, 0x08, 0x0a, 0x0e, 0x06, 0x03, 0xfe}[variant%8]
+		n := []int{0, 1, 4, 15, 16, 17, 19, 20}[(variant/8)%8]
+		b[8] = byte(n)
+		c.Link.PeerWrite(append(b, make([]byte, n)...))
 	case "unsolicited-ready-then-answer":
 		c.Link.PeerWrite(hdr(-1, 0x02, 0))
 		c.Link.PeerWrite(ok)
